@@ -17,12 +17,6 @@ RT = "nemoguardrails/colang/v2_x/runtime/runtime.py"
 BENIGN = {
     ("_create_event_reference", "get_event_from_element"):
         "re-evaluates the match element that _compute_event_matching_score evaluated successfully for this head in the same iteration",
-    ("_resolve_action_conflicts", "get_event_from_element"):
-        "re-evaluates a send element that slide() evaluated inside the per-flow try when the head stopped on it",
-    ("_generate_action_event_from_actionable_element", "get_event_from_element"):
-        "same element as above, evaluated under the try by slide() before the head became actionable",
-    ("_process_internal_events_without_default_matchers", "_get_reference_activated_flow_instance"):
-        "evaluates, with the same empty context, the default expressions that create_flow_instance evaluated successfully when the reference instance was created",
     ("_add_head_to_event_matching_structures", "get_event_name_from_element"):
         "the DIRECT calls of the index callback (_flow_head_changed in add_new_flow_instance / the restart in _finish_flow) register a head at position 0, i.e. on the generated "
         "`match StartFlow(flow_id=<literal>)`; every other activation of the callback goes through a store to `head.position`, decided by C10.a.position-stores",
@@ -45,6 +39,7 @@ def run(ctx):
     a_position_stores(ctx)
     b_api(ctx)
     c_restart_guards(ctx)
+    c_restart_progress(ctx)
     c_error_before_restart(ctx)
     d_event_cap(ctx)
     e_error_handler_flows(ctx)
@@ -95,7 +90,7 @@ def a_containment(ctx):
     ctx.stat("calls_unresolved_external", cg.unresolved)
     EVF = {k for k, fn in U.items() if leaf_sites(fn)} | {(EV, "eval_expression")}
     ctx.stat("evaluator_functions", sorted(q for _, q in EVF))
-    ctx.floor("C10.a.containment", SM, "functions with a direct evaluator / raise Colang...Error site reachable from the loop", len(EVF), 6)
+    ctx.floor("C10.a.containment", SM, "functions with a direct evaluator / raise Colang...Error site reachable from the loop", len(EVF), 4)
     # all functions with leaf sites anywhere in statemachine (covered ones too) for the covered-edge count
     ALL_EV = {(SM, qualname(f)) for f in functions(t) if leaf_sites(f)} | {(EV, "eval_expression")}
     covered = [(a, b, cov, call) for a, b, cov, call in edges if cov is not None and b in ALL_EV and a in U]
@@ -218,9 +213,41 @@ def a_position_stores(ctx):
     ctx.floor("C10.a.position-stores", SM, "stores to head.position", n, 10)
 
 
+_HANDLER_CALLS = ("Event", "str", "type", "hasattr", "_push_internal_event", "_push_left_internal_event", "getattr", "repr", "isinstance", "_abort_flow",
+                  "get_flow_state_from_head", "is_active_flow", "is_listening_flow")
+
+
+def _expand_handler(fn, h):
+    """The handler with its statement-level calls of module-level reporting helpers (`_fail_flow_of_head(state, head, e)`) replaced by the helpers' bodies: what the handler
+    does is read through one level of straight-line helpers (no loop, no try, no return value), whatever they are called."""
+    mod = fn
+    while getattr(mod, "_parent", None) is not None:
+        mod = mod._parent
+    defs = {f.name: f for f in getattr(mod, "body", []) if isinstance(f, ast.FunctionDef)}
+    out = []
+    changed = False
+    for st in h.body:
+        if isinstance(st, ast.Expr) and isinstance(st.value, ast.Call) and isinstance(st.value.func, ast.Name) and st.value.func.id in defs \
+                and st.value.func.id not in _HANDLER_CALLS:
+            g = defs[st.value.func.id]
+            simple = not any(isinstance(x, (ast.For, ast.While, ast.Try, ast.With, ast.Return, ast.Yield, ast.Await)) and not (isinstance(x, ast.Return) and x.value is None)
+                             for x in ast.walk(g))
+            if simple and g is not fn:
+                out += [b for b in g.body if not (isinstance(b, ast.Expr) and isinstance(b.value, ast.Constant))]
+                changed = True
+                continue
+        out.append(st)
+    if not changed:
+        return h
+    h2 = ast.ExceptHandler(type=h.type, name=h.name, body=out)
+    ast.copy_location(h2, h)
+    return h2
+
+
 def _handler_fails_only_flow(fn, tr, h):
     if handler_reraises(h):
         return False, "the handler re-raises"
+    h = _expand_handler(fn, h)
     body = " ".join(src(s) for s in h.body)
     # the ColangError event is built in the handler and queued there or, bound to a variable, after the try (e.g. in front of the failed flow's restart)
     built = [a for st in h.body for a in ast.walk(st) if isinstance(a, ast.Assign) and isinstance(a.value, ast.Call) and src(a.value.func) == "Event" and "ColangError" in src(a.value)
@@ -231,14 +258,24 @@ def _handler_fails_only_flow(fn, tr, h):
     direct_push = any(isinstance(c, ast.Call) and src(c.func) in ("_push_internal_event", "_push_left_internal_event") and any(
         isinstance(x, ast.Call) and src(x.func) == "Event" and "ColangError" in src(x) for a_ in c.args for x in ast.walk(a_)) for st in h.body for c in ast.walk(st))
     direct_abort = any(isinstance(c, ast.Call) and src(c.func) == "_abort_flow" for st in h.body for c in ast.walk(st))
-    if direct_push and direct_abort:
+    ended = False
+    if direct_push and not direct_abort:
+        # the flow at hand has ALREADY ended when the try is reached (its terminal status is stored on every path to the try): there is nothing left to abort
+        cfg_ = CFG(fn)
+        term = [n for n in cfg_.nodes if n.kind == "stmt" and isinstance(n.ast, ast.Assign) and src(n.ast.targets[0]).endswith(".status")
+                and re.search(r"FlowStatus\.(FINISHED|STOPPED)$", src(n.ast.value))]
+        # the statements of a try body are the CFG nodes; take the first one
+        first = cfg_.node_of(tr.body[0]) if tr.body else None
+        ended = bool(term) and first is not None and cfg_.must_pass(cfg_.entry, first, term)
+    if direct_push and (direct_abort or ended):
         for st in h.body:
             for x in walk_no_nested(st):
                 if isinstance(x, ast.Call):
                     f = src(x.func)
-                    if not (f.startswith("log.") or f in ("Event", "str", "type", "hasattr", "_push_internal_event", "_push_left_internal_event", "getattr", "repr", "isinstance",
-                                                          "_abort_flow", "get_flow_state_from_head")):
+                    if not (f.startswith("log.") or f in _HANDLER_CALLS or (f.endswith(".get") and isinstance(x.func, ast.Attribute) and not isinstance(x.func.value, ast.Call))):
                         return False, "the handler calls `%s(...)`, which may raise inside the handler" % f
+        if ended:
+            return True, "the flow at hand has already ended when the call is made; the handler logs and queues a ColangError event"
         return True, "handler logs, aborts the flow at hand and queues a ColangError event; the caller's loop continues with the next head"
     if "ColangError" not in body or not (("_push_internal_event" in body) or pushed):
         return False, "the handler does not report a ColangError event"
@@ -449,6 +486,42 @@ def c_restart_guards(ctx):
             elif starting and resets:
                 msg = "the %s guard `%s` does not hold for every activated instance (it evaluates to %s for flow_state.activated = 1): the excluded instances restart forever" % (kind, first_line(g.test, 80), v)
         ctx.check("C10.c.restart-guard", SM, "_advance_head_front", "immediate %s of an activated flow" % kind, ok, msg, line=(guards[0].lineno if guards else fn.lineno))
+
+
+def c_restart_progress(ctx):
+    """Termination clause, the part that is visible in the code's shape: an activated flow is restarted when its instance ends.  The two immediate-end guards (C10.c.restart-guard)
+    are keyed to the status STARTING, and the status leaves STARTING as soon as every head stands on a `match` - also a match on the Finished event of a child flow that the
+    instance started itself and that ends AT ONCE.  Such an instance ends in the round it was created, is restarted, ends again ...: one event never finishes processing in a
+    program without any loop or recursion (F144).  Necessary for the bound: the restart is conditioned on evidence that the ended instance consumed something from OUTSIDE the
+    round (a conjunct of the restart condition beyond the activation count / the already-restarted flag), or the round has a step budget."""
+    t = ctx.tree.ast(SM)
+    fin = find_function(t, "_finish_flow")
+    rtc = find_function(t, "run_to_completion")
+    if fin is None or rtc is None:
+        raise AnalysisError("_finish_flow / run_to_completion not found", anchor=SM + "::_finish_flow")
+    sites = [i for i in ast.walk(fin) if isinstance(i, ast.If) and any(isinstance(c, ast.Call) and src(c.func).endswith(".start_event") for st in i.body for c in ast.walk(st))
+             and ".activated" in src(i.test)]
+    ctx.floor("C10.c.restart-progress", SM, "restart of an activated flow in _finish_flow", len(sites), 1)
+    # a step budget: a counter incremented inside the processing loop and compared in a test that raises / breaks / returns
+    counters = {src(a.target) for a in ast.walk(rtc) if isinstance(a, ast.AugAssign) and isinstance(a.op, ast.Add)}
+    budget = any(isinstance(i, (ast.If, ast.While)) and any(src(x) in counters for x in ast.walk(i.test))
+                 and (isinstance(i, ast.While) or any(isinstance(y, (ast.Raise, ast.Break, ast.Return)) for st in i.body for y in ast.walk(st))) for i in ast.walk(rtc))
+    for i in sites:
+        conj = []
+        def flat(e):
+            if isinstance(e, ast.BoolOp) and isinstance(e.op, ast.And):
+                for v in e.values:
+                    flat(v)
+            else:
+                conj.append(e)
+        flat(i.test)
+        extra = [c for c in conj if not re.search(r"deactivate_flow|\.activated\b|new_instance_started", src(c))]
+        ok = bool(extra) or budget
+        ctx.check("C10.c.restart-progress", SM, "_finish_flow", "restart only after the instance made progress", ok,
+                  ("the restart is conditioned on `%s`" % first_line(extra[0], 60)) if extra else ("run_to_completion has a step budget" if budget else
+                  "the restart of an activated flow depends only on the activation count and the already-restarted flag, and run_to_completion has no step budget: an activated flow "
+                  "whose body is `await <flow that ends at once>` leaves STARTING (it stands on a match), finishes in the same round, is restarted, finishes, ... - "
+                  "run_to_completion never returns for a program without loop or recursion"), line=i.lineno)
 
 
 def d_event_cap(ctx):
